@@ -1,5 +1,5 @@
 import SimuVerif.Lemmas.ContactRuleForm
-import SimuVerif.Lemmas.BroadPhaseGeom
+import SimuVerif.Lemmas.ContactMinMax
 import SimuVerif.Properties.C05
 import Mathlib.Tactic.NormNum
 /-
